@@ -260,6 +260,17 @@ func (p *Program) GenFunc(fc *FuncContract, prop string) (res *FuncResult) {
 	// vacuity guard: the preconditions are satisfiable
 	ex.vc.AddObl(&Obligation{Name: fc.Key() + ".vacuity.requires", Kind: "vacuity", Hyp: TTrue, Goal: TTrue, Expect: Sat,
 		Note: "the preconditions (and assumptions) are satisfiable", Inputs: inputs, NoReplay: true})
+	// case splits: evaluated over the entry state; each split must be exhaustive
+	var casesAt [][]Term
+	for ci, alts := range fc.Cases {
+		var ts []Term
+		for _, a := range alts {
+			ts = append(ts, vc.Define(fmt.Sprintf("case%d", ci+1), sc.evalBool(a.Expr)))
+		}
+		casesAt = append(casesAt, ts)
+		ex.vc.AddObl(&Obligation{Name: fmt.Sprintf("%s.cases.%d.exhaustive", fc.Key(), ci+1), Kind: "cases", Hyp: TTrue, Goal: Or(ts...),
+			Note: "the case split is exhaustive", NoReplay: true})
+	}
 	start := nodeState{reach: TTrue, env: env, names: names, st: st}
 	f.params = names
 	f.run(fn.Blocks[0], start)
@@ -345,8 +356,32 @@ func (p *Program) GenFunc(fc *FuncContract, prop string) (res *FuncResult) {
 			if len(f.rets) > 1 {
 				name = fmt.Sprintf("%s@ret%d", name, ri+1)
 			}
-			ex.obl(&Obligation{Name: name, Kind: "post", Props: e.Props, Hyp: r.reach, Goal: goal, Extra: extra, Note: "postcondition: " + e.Text,
-				Pos: f.pos(r.pos), Inputs: outs})
+			if len(fc.Cases) == 0 || r.reach.B != nil {
+				ex.obl(&Obligation{Name: name, Kind: "post", Props: e.Props, Hyp: r.reach, Goal: goal, Extra: extra, Note: "postcondition: " + e.Text,
+					Pos: f.pos(r.pos), Inputs: outs})
+			} else {
+				// one obligation per combination of the case splits (the splits are shown exhaustive separately)
+				combos := [][]int{{}}
+				for _, alts := range fc.Cases {
+					var next [][]int
+					for _, c := range combos {
+						for k := range alts {
+							next = append(next, append(append([]int(nil), c...), k))
+						}
+					}
+					combos = next
+				}
+				for _, c := range combos {
+					var hyps []Term
+					var label []string
+					for ci, k := range c {
+						hyps = append(hyps, casesAt[ci][k])
+						label = append(label, fmt.Sprint(k+1))
+					}
+					ex.obl(&Obligation{Name: name + "@case" + strings.Join(label, "."), Kind: "post", Props: e.Props, Hyp: And(append([]Term{r.reach}, hyps...)...),
+						Goal: goal, Extra: extra, Note: "postcondition: " + e.Text + " (case " + strings.Join(label, ".") + ")", Pos: f.pos(r.pos), Inputs: outs})
+				}
+			}
 		}
 		// frame: everything reachable through pointer parameters that is not listed in `modifies` is unchanged
 		f.frameCheck(fc, rsc, r, ri, len(f.rets))
